@@ -138,7 +138,7 @@ type ESetSize struct{ Iter Expr } // new Set(ITER).size
 type EMapSize struct{ Iter Expr } // new Map(ITER).size  (items are not entry objects: TypeError + IteratorClose)
 type EIt struct {
 	Site, N, Flags int
-	Wrap        bool // mkIb: an iterable whose [Symbol.iterator]() method is a probe of its own (site+3) that may throw or return a non-object
+	Wrap           bool // mkIb: an iterable whose [Symbol.iterator]() method is a probe of its own (site+3) that may throw or return a non-object
 }
 type EArr struct{ Elems []Expr }
 type EGenCall struct {
